@@ -1,15 +1,15 @@
-\* X01 exhaustive: both bags, the 15 min event and the 24 h clear (time unit: EventAfter=1, ClearAfter=2)
+\* X01 exhaustive: counts of one key up to 3 (insert 1 / increment), both connection counters, event and clear
 SPECIFICATION Spec
 CONSTANTS
-  ConnKeys = {"k1", "k2"}
-  FailKeys = {"f1"}
+  ConnKeys = {"k1"}
+  FailKeys = {}
   Msgs <- McNoMsgs
   MaxMsg = 4
   EventAfter = 1
   ClearAfter = 2
-  MaxCount = 1
-  MaxHttp = 0
-  MaxTcp = 0
+  MaxCount = 3
+  MaxHttp = 2
+  MaxTcp = 1
   Ticks = TRUE
   EnvStateModules <- McNone
   EnvMsgModules <- McNone
